@@ -3,6 +3,7 @@ package main
 import (
 	"fmt"
 	"path/filepath"
+	"regexp"
 	"sort"
 	"strings"
 )
@@ -177,8 +178,8 @@ func checkParser(c *checkCtx, prop string) {
 	// model side: load, validate, parse
 	var reqs []*req
 	type ref struct {
-		j   *job
-		k   int // -1 validate
+		j *job
+		k int // -1 validate
 	}
 	var refs []ref
 	for id, j := range jobs {
@@ -216,7 +217,7 @@ func checkParser(c *checkCtx, prop string) {
 				c.addFinding(finding{Signature: "termination-condition-fails",
 					Desc:    "the emitted tables do not pass term_ok (Parse/TermCheck.v): some chain of reductions under one lookahead does not end within the fuel, so parse() is not shown to terminate on every input (" + a.raw() + ")",
 					Theorem: "term_ok tb nstates F = true (hypothesis of parse_terminates / parse_decides)", NoInput: true,
-					Replay:  map[string]any{"spec": r.j.s.loxText}})
+					Replay: map[string]any{"spec": r.j.s.loxText}})
 			}
 		case -1:
 			valid[r.j] = a.int() == 1
@@ -404,8 +405,10 @@ func corpusGrammars() []string {
 
 // checkBlame: reading @error as a terminal only the parser can supply, for an
 // input without lexer ERROR tokens that is not a sentence the parser must
-// return false or deliver an Error, and the first Error delivered must carry
+// return false or deliver an Error, and the first Error delivered (first in input order, see below) must carry
 // the first token at which the input stops being a prefix of a sentence.
+var errTokRe = regexp.MustCompile(`E\(T\((-?\d+),(\d+)\)`)
+
 func checkBlame(c *checkCtx, s *wsSpec, w []int, impl string) {
 	for _, t := range w {
 		if t == 1 {
@@ -437,8 +440,17 @@ func checkBlame(c *checkCtx, s *wsSpec, w []int, impl string) {
 	if i < 0 {
 		return // returned false without delivering an Error: allowed
 	}
-	var ty, id int
-	fmt.Sscanf(log[i:], "E(T(%d,%d)", &ty, &id)
+	// "first" is read in INPUT order, i.e. the Error that was built first (token positions only grow while the
+	// parser advances): actions run at reduce time, so in a right-recursive rule such as  s = A @error s  the
+	// action that receives the last error of the input is the first one to be called.
+	id := -1
+	for _, m := range errTokRe.FindAllStringSubmatch(log, -1) {
+		var x int
+		fmt.Sscan(m[2], &x)
+		if id < 0 || x < id {
+			id = x
+		}
+	}
 	if id != k {
 		c.addFinding(finding{Signature: "error-blames-wrong-token",
 			Desc: fmt.Sprintf("on %v the first Error delivered carries token #%d, but the input stops being a prefix of a sentence at token #%d",
